@@ -262,6 +262,12 @@ fn plan(prop: &str, tier: &str) -> Plan {
         }
         fams.push(json!({"family": "clock-preloaded positions (half-move clock 98 / 99), depth 0", "members": n}));
     }
+    // C13: move lists longer than 128 entries with many like pieces
+    if prop == "C13" {
+        let fam: Vec<Pos> = many_queens().into_iter().filter(|p| p.is_consistent()).collect();
+        let n = family_items("many-queens", fam, 1, &mut items);
+        fams.push(json!({"family": "many-queens (218 legal moves, nine queens; and the colour-swapped image)", "members": n, "depth": 1}));
+    }
     // C06: terminal family — mates and stalemates of king + one adjacent pawn (free, blocked or pinned)
     if prop == "C06" {
         let ks: Vec<Sq> = if thorough { vec![0, 1, 8, 7, 6, 15, 56, 57, 48, 63, 62, 55] } else { vec![0, 7, 56, 63] };
